@@ -59,8 +59,169 @@ func (b *c12BH) SponsorStateKeys(codec.Address) state.Keys { return b.keys }
 
 var c12Perms = []state.Permissions{state.Read, state.Allocate, state.Write, state.All, state.None}
 
+// c12Prep is a parsed `units` line: the transaction, its collaborators and what the exact
+// formula of the property says Units must return.
+type c12Prep struct {
+	tx      *Transaction
+	bh      *c12BH
+	rules   *c12Rules
+	want    string
+	nKeys   int
+	nAct    int
+	sponsor int
+}
+
+// c12Prepare parses the fields of a `units` line
+// (units size base auth kr vr ka va kw vw nA (acu nk key*)* nS key*).
+func c12Prepare(f []string) (*c12Prep, bool) {
+	if len(f) < 12 || f[0] != "units" {
+		return nil, false
+	}
+	two64 := new(big.Int).Lsh(big.NewInt(1), 64)
+	nums := make([]uint64, 9)
+	for i := range nums {
+		v, err := strconv.ParseUint(f[1+i], 10, 64)
+		if err != nil {
+			return nil, false
+		}
+		nums[i] = v
+	}
+	size, base, authCU := nums[0], nums[1], nums[2]
+	rules := &c12Rules{base: base, kr: nums[3], vr: nums[4], ka: nums[5], va: nums[6], kw: nums[7], vw: nums[8]}
+	pos := 11
+	takeKeys := func() ([][]byte, bool) {
+		if pos >= len(f) {
+			return nil, false
+		}
+		n, err := strconv.Atoi(f[pos])
+		pos++
+		if err != nil || n < 0 || pos+n > len(f) {
+			return nil, false
+		}
+		out := make([][]byte, 0, n)
+		for i := 0; i < n; i++ {
+			b, err := verifh.UnHex(f[pos+i])
+			if err != nil {
+				return nil, false
+			}
+			out = append(out, b)
+		}
+		pos += n
+		return out, true
+	}
+	nA, err := strconv.Atoi(f[10])
+	if err != nil || nA < 0 || size > 1<<62 {
+		return nil, false
+	}
+	var actions []Action
+	var actionCUs []uint64
+	allKeys := map[string]bool{}
+	anyBad := false
+	permIx := 0
+	mkKeys := func(ks [][]byte) state.Keys {
+		m := make(state.Keys, len(ks))
+		for _, k := range ks {
+			m[string(k)] |= c12Perms[permIx%len(c12Perms)]
+			permIx++
+			allKeys[string(k)] = true
+			if len(k) < 2 {
+				anyBad = true
+			}
+		}
+		return m
+	}
+	for i := 0; i < nA; i++ {
+		if pos >= len(f) {
+			return nil, false
+		}
+		cu, err := strconv.ParseUint(f[pos], 10, 64)
+		pos++
+		if err != nil {
+			return nil, false
+		}
+		ks, ok := takeKeys()
+		if !ok {
+			return nil, false
+		}
+		actions = append(actions, &c12Action{cu: cu, keys: mkKeys(ks)})
+		actionCUs = append(actionCUs, cu)
+	}
+	sponsor, ok := takeKeys()
+	if !ok || pos != len(f) {
+		return nil, false
+	}
+	p := &c12Prep{bh: &c12BH{keys: mkKeys(sponsor)}, rules: rules, nKeys: len(allKeys), nAct: len(actions), sponsor: len(sponsor)}
+	p.tx = &Transaction{TransactionData: TransactionData{Actions: actions}, Auth: &c12Auth{cu: authCU}, size: int(size)}
+
+	// the statement of the property in exact arithmetic
+	compute := new(big.Int).SetUint64(base)
+	for _, cu := range actionCUs {
+		compute.Add(compute, new(big.Int).SetUint64(cu))
+	}
+	compute.Add(compute, new(big.Int).SetUint64(authCU))
+	var reads, allocs, writes big.Int
+	names := make([]string, 0, len(allKeys))
+	for k := range allKeys {
+		names = append(names, k)
+	}
+	sort.Strings(names)
+	for _, k := range names {
+		if len(k) < 2 {
+			continue
+		}
+		chunks := new(big.Int).SetUint64(uint64(k[len(k)-2])<<8 | uint64(k[len(k)-1]))
+		add := func(acc *big.Int, kc, vc uint64) {
+			acc.Add(acc, new(big.Int).SetUint64(kc))
+			acc.Add(acc, new(big.Int).Mul(chunks, new(big.Int).SetUint64(vc)))
+		}
+		add(&reads, rules.kr, rules.vr)
+		add(&allocs, rules.ka, rules.va)
+		add(&writes, rules.kw, rules.vw)
+	}
+	switch {
+	case compute.Cmp(two64) >= 0:
+		p.want = "overflow"
+	case anyBad:
+		p.want = "badkey"
+	case reads.Cmp(two64) >= 0 || allocs.Cmp(two64) >= 0 || writes.Cmp(two64) >= 0:
+		p.want = "overflow"
+	default:
+		p.want = fmt.Sprintf("ok %d,%s,%s,%s,%s", size, compute, &reads, &allocs, &writes)
+	}
+	return p, true
+}
+
+func c12Eval(tx *Transaction, bh BalanceHandler, rules Rules) string {
+	got, uerr := tx.Units(bh, rules)
+	switch {
+	case uerr == nil:
+		return "ok " + fmt.Sprintf("%d,%d,%d,%d,%d", got[0], got[1], got[2], got[3], got[4])
+	case errors.Is(uerr, safemath.ErrOverflow):
+		return "overflow"
+	case errors.Is(uerr, ErrInvalidKeyValue):
+		return "badkey"
+	default:
+		return "err:" + uerr.Error()
+	}
+}
+
+// c12Split turns `units2 size auth A×7 B×7 rest…` into the two equivalent `units` field lists.
+func c12Split(f []string) (a, b []string, ok bool) {
+	if len(f) < 19 || f[0] != "units2" {
+		return nil, nil, false
+	}
+	mk := func(rs []string) []string {
+		out := []string{"units", f[1], rs[0], f[2]}
+		out = append(out, rs[1:7]...)
+		return append(out, f[17:]...)
+	}
+	return mk(f[3:10]), mk(f[10:17]), true
+}
+
 // C12 (first half): Transaction.Units = size, base+actions+auth compute, and per distinct
-// declared key read/allocate/write key cost + chunks*value cost; overflow is an error.
+// declared key read/allocate/write key cost + chunks*value cost; overflow is an error; the
+// result depends on the rules passed to *this* call only (`units2`: one transaction object
+// metered under two rule sets, as across a rule upgrade).
 func TestVerifC12(t *testing.T) {
 	r := verifh.Start("C12")
 	defer r.Finish()
@@ -70,164 +231,62 @@ func TestVerifC12(t *testing.T) {
 	if lines == nil {
 		lines = c12Generate(r)
 	}
-	two64 := new(big.Int).Lsh(big.NewInt(1), 64)
 
 	for _, l := range lines {
 		f := verifh.Fields(l)
-		if len(f) < 12 || f[0] != "units" {
-			r.Emit(l, "bad-op")
-			continue
-		}
-		nums := make([]uint64, 9)
-		bad := false
-		for i := range nums {
-			v, err := strconv.ParseUint(f[1+i], 10, 64)
-			if err != nil {
-				bad = true
+		if len(f) > 0 && f[0] == "units2" {
+			fa, fb, ok := c12Split(f)
+			var pa, pb *c12Prep
+			if ok {
+				pa, ok = c12Prepare(fa)
 			}
-			nums[i] = v
-		}
-		size, base, authCU := nums[0], nums[1], nums[2]
-		rules := &c12Rules{base: base, kr: nums[3], vr: nums[4], ka: nums[5], va: nums[6], kw: nums[7], vw: nums[8]}
-		pos := 10
-		takeKeys := func() ([][]byte, bool) {
-			if pos >= len(f) {
-				return nil, false
+			if ok {
+				pb, ok = c12Prepare(fb)
 			}
-			n, err := strconv.Atoi(f[pos])
-			pos++
-			if err != nil || n < 0 || pos+n > len(f) {
-				return nil, false
-			}
-			out := make([][]byte, 0, n)
-			for i := 0; i < n; i++ {
-				b, err := verifh.UnHex(f[pos+i])
-				if err != nil {
-					return nil, false
-				}
-				out = append(out, b)
-			}
-			pos += n
-			return out, true
-		}
-		nA, err := strconv.Atoi(f[10])
-		if err != nil || nA < 0 || bad || size > 1<<62 {
-			r.Emit(l, "bad-op")
-			continue
-		}
-		pos = 11
-		var actions []Action
-		var actionCUs []uint64
-		allKeys := map[string]bool{}
-		anyBad := false
-		okParse := true
-		permIx := 0
-		mkKeys := func(ks [][]byte) state.Keys {
-			m := make(state.Keys, len(ks))
-			for _, k := range ks {
-				m[string(k)] |= c12Perms[permIx%len(c12Perms)]
-				permIx++
-				allKeys[string(k)] = true
-				if len(k) < 2 {
-					anyBad = true
-				}
-			}
-			return m
-		}
-		for i := 0; i < nA && okParse; i++ {
-			if pos >= len(f) {
-				okParse = false
-				break
-			}
-			cu, err := strconv.ParseUint(f[pos], 10, 64)
-			pos++
-			if err != nil {
-				okParse = false
-				break
-			}
-			ks, ok := takeKeys()
 			if !ok {
-				okParse = false
-				break
-			}
-			actions = append(actions, &c12Action{cu: cu, keys: mkKeys(ks)})
-			actionCUs = append(actionCUs, cu)
-		}
-		var sponsor [][]byte
-		if okParse {
-			sponsor, okParse = takeKeys()
-		}
-		if !okParse || pos != len(f) {
-			r.Emit(l, "bad-op")
-			continue
-		}
-		bh := &c12BH{keys: mkKeys(sponsor)}
-		tx := &Transaction{TransactionData: TransactionData{Actions: actions}, Auth: &c12Auth{cu: authCU}, size: int(size)}
-
-		got, uerr := tx.Units(bh, rules)
-		var out string
-		switch {
-		case uerr == nil:
-			out = "ok " + fmt.Sprintf("%d,%d,%d,%d,%d", got[0], got[1], got[2], got[3], got[4])
-		case errors.Is(uerr, safemath.ErrOverflow):
-			out = "overflow"
-		case errors.Is(uerr, ErrInvalidKeyValue):
-			out = "badkey"
-		default:
-			out = "err:" + uerr.Error()
-		}
-		r.Emit(l, out)
-		r.Count(fmt.Sprintf("actions:%d", len(actions)))
-		r.Count(fmt.Sprintf("keys:%d", len(allKeys)))
-
-		// ---- oracle: the statement of the property in exact arithmetic
-		compute := new(big.Int).SetUint64(base)
-		for _, cu := range actionCUs {
-			compute.Add(compute, new(big.Int).SetUint64(cu))
-		}
-		compute.Add(compute, new(big.Int).SetUint64(authCU))
-		var reads, allocs, writes big.Int
-		names := make([]string, 0, len(allKeys))
-		for k := range allKeys {
-			names = append(names, k)
-		}
-		sort.Strings(names)
-		for _, k := range names {
-			if len(k) < 2 {
+				r.Emit(l, "bad-op")
 				continue
 			}
-			chunks := new(big.Int).SetUint64(uint64(k[len(k)-2])<<8 | uint64(k[len(k)-1]))
-			add := func(acc *big.Int, kc, vc uint64) {
-				acc.Add(acc, new(big.Int).SetUint64(kc))
-				acc.Add(acc, new(big.Int).Mul(chunks, new(big.Int).SetUint64(vc)))
+			// the SAME transaction object, first under rules A, then under rules B
+			outA := c12Eval(pa.tx, pa.bh, pa.rules)
+			outB := c12Eval(pa.tx, pa.bh, pb.rules)
+			r.Emit(l, outA+" | "+outB)
+			r.Count("units2")
+			if pa.want != pb.want {
+				r.Distinct(l)
+				r.Count("units2:rules-matter")
 			}
-			add(&reads, rules.kr, rules.vr)
-			add(&allocs, rules.ka, rules.va)
-			add(&writes, rules.kw, rules.vw)
+			if outA != pa.want {
+				r.Violation("units-ne-formula", "Units = %s, exact formula gives %s (first call): %s", outA, pa.want, l)
+			}
+			if outB != pb.want {
+				key := "units-ne-formula"
+				if fresh := c12Eval(pb.tx, pb.bh, pb.rules); fresh == pb.want {
+					key = "units-depend-on-earlier-call"
+				}
+				r.Violation(key, "second Units call on the same transaction under other rules = %s, exact formula for those rules gives %s: %s", outB, pb.want, l)
+			}
+			continue
 		}
-		over := compute.Cmp(two64) >= 0
-		storageOver := reads.Cmp(two64) >= 0 || allocs.Cmp(two64) >= 0 || writes.Cmp(two64) >= 0
-		var want string
-		switch {
-		case over:
-			want = "overflow"
-		case anyBad:
-			want = "badkey"
-		case storageOver:
-			want = "overflow"
-		default:
-			want = fmt.Sprintf("ok %d,%s,%s,%s,%s", size, compute, &reads, &allocs, &writes)
+		p, ok := c12Prepare(f)
+		if !ok {
+			r.Emit(l, "bad-op")
+			continue
 		}
-		if want == "overflow" || (len(allKeys) > 0 && (len(actions) > 1 || len(sponsor) > 0)) {
+		out := c12Eval(p.tx, p.bh, p.rules)
+		r.Emit(l, out)
+		r.Count(fmt.Sprintf("actions:%d", p.nAct))
+		r.Count(fmt.Sprintf("keys:%d", p.nKeys))
+		if p.want == "overflow" || (p.nKeys > 0 && (p.nAct > 1 || p.sponsor > 0)) {
 			r.Distinct(l)
 		}
-		r.Count("want:" + strings.Fields(want)[0])
-		if out != want {
+		r.Count("want:" + strings.Fields(p.want)[0])
+		if out != p.want {
 			key := "units-ne-formula"
-			if want == "overflow" || out == "overflow" {
+			if p.want == "overflow" || out == "overflow" {
 				key = "units-overflow-handling"
 			}
-			r.Violation(key, "Units = %s, exact formula gives %s: %s", out, want, l)
+			r.Violation(key, "Units = %s, exact formula gives %s: %s", out, p.want, l)
 		}
 	}
 }
@@ -280,6 +339,8 @@ func c12Generate(r *verifh.Run) []string {
 		"units 7 1 1 1 1 1 1 1 1 1 0 1 aa 0",
 		fmt.Sprintf("units 7 %d 1 1 1 1 1 1 1 1 0 1 aa 0", m),
 		"units 0 0 0 0 0 0 0 0 0 0 0",
+		"units2 100 2 1 5 2 20 5 10 10 1 50 2 20 5 10 10 1 3 1 aa0001 0",
+		"units2 100 2 1 5 2 20 5 10 10 3 5 9 21 6 11 4 2 3 2 00010002 aabb0003 4 1 00010002 1 cc0001",
 	}
 	n := r.N(9000, 250000)
 	for it := 0; it < n; it++ {
@@ -346,7 +407,25 @@ func c12Generate(r *verifh.Run) []string {
 			sb.WriteByte(' ')
 			sb.WriteString(verifh.Hex(k))
 		}
-		lines = append(lines, sb.String())
+		line := sb.String()
+		lines = append(lines, line)
+		if it%5 == 0 {
+			// the same transaction metered again under a second rule set (a rule upgrade)
+			f := strings.Fields(line)
+			var sb2 strings.Builder
+			fmt.Fprintf(&sb2, "units2 %s %s %s %s", f[1], f[3], f[2], strings.Join(f[4:10], " "))
+			md := rng.Intn(4)
+			fmt.Fprintf(&sb2, " %d", c12Cost(rng, 0))
+			for i := 0; i < 6; i++ {
+				c := c12Cost(rng, md)
+				if rng.Intn(3) == 0 {
+					c = verifh.U(f[4+i]) // this cost unchanged by the upgrade
+				}
+				fmt.Fprintf(&sb2, " %d", c)
+			}
+			fmt.Fprintf(&sb2, " %s", strings.Join(f[10:], " "))
+			lines = append(lines, sb2.String())
+		}
 	}
 	return lines
 }
